@@ -34,6 +34,22 @@ def countScan (text : Bytes) (sfx : String) : String × Option (List Cell) :=
           let cellsTxt := String.join (cells.map (fun c => " " ++ showCell c))
           (s!"C{sfx} {count} W{sfx} {n} R{sfx} {rd}/{text.length} V{sfx}{cellsTxt}", some cells)
 
+/-- a range with a count ≤ 0 outside of an array: the print / rescan part is skipped
+    (see harness/scan.cpp) -/
+def endlessAtTop : Nat → List Cell → Bool
+  | 0, _ => false
+  | _ + 1, [] => false
+  | f + 1, .arr _ len :: r => endlessAtTop f (r.drop len.toNat)
+  | f + 1, .rep n hd :: r =>
+    if n ≤ 0 then true
+    else if hd ≠ 0 then endlessAtTop f (r.drop 2)
+    else
+      match r with
+      | .arr _ len :: r' => endlessAtTop f (r'.drop len.toNat)
+      | _ :: r' => endlessAtTop f r'
+      | [] => false
+  | f + 1, _ :: r => endlessAtTop f r
+
 def step (line : String) : String :=
   match words line with
   | [] => "bad-op"
@@ -47,6 +63,7 @@ def step (line : String) : String :=
         match cells? with
         | none => g1
         | some cells =>
+          if endlessAtTop (cells.length + 1) cells then g1 ++ " P !endless" else
           match C11.printArgVals defaultOpt cells { out := [], cols := 0 } with
           | .error e => g1 ++ " P " ++ showErr e
           | .ok (st, _) =>
